@@ -9,7 +9,10 @@ TRACE_KEEP = {"Reset", "Emit", "EmitLost", "ReconfCall", "ReconfRet", "Proc", "W
 
 # which recorded-invariant names decide which property
 INV_OF = {
-    "C01": {"NoEarlyAck"},
+    # (HandledBeforeStored: the position stored for a source is what its connector is told at the next Open - the durable
+    #  form of "told that a record is acknowledged"; the v2 engine tears a failing run down before the plugin hears the
+    #  ack, so an early acknowledgment shows in the store, not on the ack stream: seeded changes C01-2, C01-4)
+    "C01": {"NoEarlyAck", "HandledBeforeStored"},
     "C02": {"AckAfterDurable", "StoreMonotone", "HandledBeforeStored"},
     "C03": {"OpenAtStored", "OpenNotPastUnhandled", "HandledBeforeStored", "AckAfterDurable"},
     "C04": {"AckPrefix"},
@@ -19,9 +22,9 @@ INV_OF = {
     # (HandledBeforeStored: "never lost" - the stored position is the durable form of the acknowledgment; it must not pass a
     #  rejected record whose dead-letter write failed, whether or not the plugin was still told)
     "C07": {"DlqOnce", "DlqSourceOrder", "DlqBeforeAck", "DlqCarriesOriginal", "DlqDecision", "DlqFailNoAck", "DlqStops",
-            "HandledBeforeStored"},
+            "HandledBeforeStored", "DlqJustified"},
     "C08": {"ExactlyOne", "WriteDerived", "NoEarlyAck", "DlqOnce", "DlqOriginal", "PositionImmutable", "AckPrefix",
-            "NoDupWrite", "DestOrder"},
+            "NoDupWrite", "DestOrder", "DlqJustified"},
     "C13": {"OneConfigPerRecord", "SwitchAtBoundary", "OnlyRequestedConfig", "FailedOpenKeepsOld", "AppliedIsInForce",
             "AckPrefix", "NoEarlyAck", "DestOrder", "NoDupWrite", "NoHang", "TeardownMatchesOpen"},
     "C09": {"NoPanic", "NoHang", "NoEarlyAck", "CondAligned", "StoreMonotone", "PositionImmutable"},
